@@ -213,7 +213,7 @@ pub const DEF: PropertyDef = PropertyDef {
     rule: "exhaustive: every base path x target path of 1..4 components over {a,b,c} x {both absolute, both relative} \
            x separator '/' or '\\' (57 600 pairs). random: proptest pairs of 1..6 components from {a,b,c,d,x.js,y.map,ab,a.js,x,x.j} (names that are prefixes of one another) \
            with mixed separators, half of them around a shared prefix (the cell remaining=0,climb=3+ needs a base of \
-           at least 5 components and is reached by random only). Non-trivial = at least 2 target components \
+           at least 5 components and is reached by random only). exhaustive_lookalikes: paths over {a, A, e-acute composed, e-acute decomposed}. Non-trivial = at least 2 target components \
            remain after the prefix shared with the base directory, or at least 2 levels must be climbed",
     assumptions: &[
         "components are ordinary names (never '.', '..' or empty) and both paths are of the same kind (the statement's precondition)",
